@@ -94,10 +94,15 @@ package client
 //@ monitor BaseClient.mu protects closed, clientImpl
 // recvSinceCheck: messages received since the close flag was last read.
 //@ ghost recvSinceCheck int
+// lastImplErr: what the implementation's latest Recv returned; implCloses: how often it was closed.
+//@ ghost lastImplErr error
+//@ ghost implCloses int
 //@ func iface Impl.Recv
 //@   effect recvSinceCheck := recvSinceCheck + 1
-//@   ensures !sentinel(res0) || res0 == ErrStopReading || res0 == ErrClientInit
+//@   effect lastImplErr := res0
+//@   ensures !sentinel(res0) || res0 == ErrStopReading || res0 == ErrClientInit || res0 == io.EOF
 //@ func iface Impl.Close
+//@   effect implCloses := implCloses + 1
 //@ func iface Impl.Poll
 
 // The receive loop reads the close flag after every received message, so at most one
@@ -107,8 +112,11 @@ package client
 //@   props C18 C12
 //@   locks c
 //@   requires c != nil && impl != nil && recvSinceCheck == 0
-//@   modifies ghost recvSinceCheck
-//@   invariant 0: recvSinceCheck == 0
+//@   modifies ghost recvSinceCheck, ghost lastImplErr, ghost implCloses
+//@   invariant 0: recvSinceCheck == 0 && implCloses == old(implCloses)
+//@   ensures [a-real-error-closes-the-implementation-and-is-returned C18] res0 != nil ==> res0 == lastImplErr && implCloses == old(implCloses) + 1
+//@   ensures [stop-markers-and-close-end-it-cleanly C18] res0 == nil ==> implCloses == old(implCloses) && (lastImplErr == io.EOF || lastImplErr == ErrStopReading || (lastImplErr == nil && closed))
+//@   ensures [stop-markers-are-not-errors C18] lastImplErr == io.EOF || lastImplErr == ErrStopReading ==> res0 == nil
 //@   set at call (*sync.RWMutex).RUnlock#0: recvSinceCheck := 0
 //@   assert at call (*sync.RWMutex).RLock#0: [flag-read-after-each-message C18] recvSinceCheck == 1
 
@@ -116,6 +124,8 @@ package client
 //@   props C18 C12
 //@   locks c
 //@   requires c != nil
+//@   modifies ghost implCloses
+//@   ensures [implementation-closed-once C18] implCloses == old(implCloses) + ite(old(c.clientImpl) != nil, 1, 0)
 //@   ensures [uninitialised-refused C18] old(c.clientImpl) == nil ==> res0 == ErrClientInit && c.closed == old(c.closed)
 //@   ensures [marked-closed C18] old(c.clientImpl) != nil ==> c.closed
 
